@@ -249,3 +249,98 @@ func Harness_C13_Nesting() {
 	c := []*sysl.Statement{c13Action("work")}
 	c13Check(c13Module([][]*sysl.Statement{a, b, c}), ":nested")
 }
+
+// ---- re-entry: participants entered again while already active ----
+
+var c13Eps = []string{"e", "f"}
+
+func c13CallEp(app, ep string) *sysl.Statement {
+	return &sysl.Statement{Stmt: &sysl.Statement_Call{Call: &sysl.Call{Target: &sysl.AppName{Part: []string{app}}, Endpoint: ep}}}
+}
+
+// c13WalkEp: reference walk for models with several endpoints per application.
+func c13WalkEp(mod *sysl.Module, app, ep string, inProgress map[string]bool, out *[]c13Arrow, budget *int) {
+	var stmts func(ss []*sysl.Statement)
+	stmts = func(ss []*sysl.Statement) {
+		for _, s := range ss {
+			switch t := s.Stmt.(type) {
+			case *sysl.Statement_Call:
+				tgt, tep := t.Call.Target.Part[0], t.Call.Endpoint
+				*out = append(*out, c13Arrow{app, tgt})
+				*budget--
+				if *budget < 0 {
+					return
+				}
+				key := tgt + " <- " + tep
+				if !inProgress[key] && len(mod.Apps[tgt].Endpoints[tep].Stmt) > 0 {
+					inProgress[key] = true
+					c13WalkEp(mod, tgt, tep, inProgress, out, budget)
+					inProgress[key] = false
+				}
+			case *sysl.Statement_Cond:
+				stmts(t.Cond.Stmt)
+			case *sysl.Statement_Group:
+				stmts(t.Group.Stmt)
+			case *sysl.Statement_Alt:
+				for _, c := range t.Alt.Choice {
+					stmts(c.Stmt)
+				}
+			}
+		}
+	}
+	stmts(mod.Apps[app].Endpoints[ep].Stmt)
+}
+
+// H3: two endpoints per application, so that a participant can be entered again while it
+// is already active (a call to another endpoint of the same application, or A -> B -> A);
+// the inner endpoint may end in a call (tail position) and the outer one goes on calling.
+//verif:shard-quick 16 4
+//verif:shard-thorough 16 5
+func Harness_C13_Reentry() {
+	type slot struct{ app, ep int }
+	// A.e has two call slots, A.f, B.e and B.f one each (thorough: C.e too)
+	owners := []slot{{0, 0}, {0, 0}, {0, 1}, {1, 0}}
+	if nd.Thorough() {
+		owners = append(owners, slot{1, 1}, slot{2, 0})
+	}
+	bodies := map[slot][]*sysl.Statement{}
+	for k, o := range owners {
+		t := nd.IntRange("call"+string(rune('0'+k)), -1, 5) // -1 none, else (app, ep) = (t/2, t%2)
+		if t < 0 {
+			continue
+		}
+		st := c13CallEp(c13Apps[t/2], c13Eps[t%2])
+		if o.app == 1 && nd.Bool("B-call-in-alt") {
+			st = c13Block(6, []*sysl.Statement{st}) // last choice of an alt
+		}
+		bodies[o] = append(bodies[o], st)
+	}
+	if nd.Bool("B.e-returns") {
+		bodies[slot{1, 0}] = append(bodies[slot{1, 0}], c13Ret("ok"))
+	}
+	mod := &sysl.Module{Apps: map[string]*sysl.Application{}}
+	for i, a := range c13Apps {
+		app := &sysl.Application{Name: &sysl.AppName{Part: []string{a}}, Endpoints: map[string]*sysl.Endpoint{}}
+		for j, e := range c13Eps {
+			app.Endpoints[e] = &sysl.Endpoint{Name: e, Stmt: bodies[slot{i, j}]}
+		}
+		mod.Apps[a] = app
+	}
+	body, aliases, w, failed, err := c13Generate(mod)
+	nd.Assert("terminates-without-crash:reentry", !failed)
+	if failed {
+		return
+	}
+	nd.Assert("returns-a-diagram:reentry", err == nil)
+	arrows := c13Parse(body, aliases, ":reentry")
+	nd.Assert("wellformed:writer-has-no-open-activation:reentry", len(w.Active) == 0)
+	want := []c13Arrow{{"[", "A"}}
+	budget := 300
+	c13WalkEp(mod, "A", "e", map[string]bool{"A <- e": true}, &want, &budget)
+	nd.Assert("arrows:count:reentry", len(arrows) == len(want))
+	for i := range want {
+		if i < len(arrows) {
+			nd.Assert("arrows:follow-the-call-tree-in-source-order:reentry", arrows[i] == want[i])
+		}
+	}
+}
